@@ -219,6 +219,8 @@ let () =
   let mode, files = match args with m :: r -> (m, r) | [] -> ("replay", []) in
   if String.length mode > 8 && String.sub mode 0 8 = "monitor:" then begin
     let pid = String.sub mode 8 (String.length mode - 8) in
+    let is_buffer path = (try let ic = open_in path in let l = (try input_line ic with End_of_file -> "") in close_in ic; l = "buffer-history" with Sys_error _ -> false) in
+    if files <> [] && List.for_all is_buffer files then (List.iter Buffer.monitor_file files; exit 0);
     if pid = "C18" then (List.iter Lease.monitor_file files; exit 0);
     if pid = "C20" then (List.iter Eventer.monitor_file files; exit 0);
     if List.mem pid ["C04"; "C06"; "C07"; "C09"; "C17"] then begin
@@ -242,6 +244,7 @@ let () =
   if mode = "sreplay" then (List.iter Shared.replay_file files; exit 0);
   if mode = "lreplay" then (List.iter Lease.replay_file files; exit 0);
   if mode = "ereplay" then (List.iter Eventer.replay_file files; exit 0);
+  if mode = "breplay" then (List.iter Buffer.replay_file files; exit 0);
   if mode = "monitor:C18" then (List.iter Lease.monitor_file files; exit 0);
   if mode <> "replay" then (prerr_endline ("unknown mode " ^ mode); exit 2);
   List.iter (fun path ->
